@@ -180,7 +180,12 @@ def finish(ctx: Ctx, out: Outcome, t0: float) -> int:
     for key, vs in sorted(used.items()):
         print(f"KNOWN-FINDING: property={ctx.prop} {key} {known[key]['what']} ({len(vs)} cases, e.g. {vs[0].case})")
     rdir = VERIF / "replays" / ctx.prop
+    shown = 0
     for key, vs in sorted(new.items()):
+        rc = 1
+        shown += 1
+        if shown > 8:
+            continue
         rdir.mkdir(parents=True, exist_ok=True)
         slug = re.sub(r"[^A-Za-z0-9_.@-]+", "_", key)[:80]
         path = rdir / f"{slug}.json"
@@ -188,8 +193,9 @@ def finish(ctx: Ctx, out: Outcome, t0: float) -> int:
         path.write_text(json.dumps({"property": ctx.prop, "key": key, "case": v.case, "detail": v.detail,
                                     "cases": len(vs), "replay": v.replay}, indent=1, default=str))
         print(f"VIOLATION property={ctx.prop} replay={path}")
-        print(f"  clause {key}: {v.detail} (case {v.case}; {len(vs)} failing cases)")
-        rc = 1
+        print(f"  clause {key}: {v.detail[:600]} (case {v.case}; {len(vs)} failing cases)")
+    if shown > 8:
+        print(f"  ... and {shown - 8} more failing clauses: {sorted(new)[8:40]}")
     if others:
         keys = sorted({v.key for v in others})
         print(f"note: clauses of other properties failed in the same corpus (reported by their own checks): {keys}")
